@@ -248,6 +248,9 @@ func runC09(o Opts) error {
 					fmt.Sprintf("the call gave up after %d ms (timeout 1500 ms) although the addressed controller's reply followed 900 stray datagrams well before the deadline: %v", ms(time.Since(st)), err))
 			}
 		}
+		// a discovery whose broadcast cannot be sent (bound to loopback, broadcast address elsewhere) fails - and releases the
+		// fixed bind port: the next call on that port works
+		failedDiscoveryProbe(s, farm, T)
 		// the controller answers from the same PORT NUMBER as the client's fixed bind port (on another address): its reply
 		// is a reply like any other and is accepted when it arrives
 		samePortReply(s, T)
@@ -405,6 +408,31 @@ func samePortReply(s *Sink, T time.Duration) {
 		if cerr != nil || e == nil || e.Index != 77 {
 			s.Fail(map[string]any{"op": "same-port-reply", "fault": "same-port-reply", "path": "broadcast", "dur_ms": ms(dur)},
 				fmt.Sprintf("a reply sent 40 ms after the request from a controller whose port number equals the client's bind port was not accepted (%v after %d ms, timeout %d ms)", cerr, ms(dur), ms(T)))
+		}
+		return
+	}
+}
+
+func failedDiscoveryProbe(s *Sink, farm *Farm, T time.Duration) {
+	for attempt := 0; attempt < 2; attempt++ {
+		p := freeUDPPort()
+		bind := types.BindAddrFrom(netip.AddrFrom4([4]byte{127, 0, 0, 1}), uint16(p))
+		bad := uhppote.NewUHPPOTE(bind, types.BroadcastAddrFrom(netip.AddrFrom4([4]byte{192, 0, 2, 255}), 60000), types.ListenAddrFrom(netip.AddrFrom4([4]byte{127, 0, 0, 1}), 60001), T, nil, false)
+		if _, err := bad.GetDevices(); err == nil {
+			return // this host can send from loopback to that address: the scenario does not apply
+		}
+		nextIndex++
+		idx := nextIndex
+		farm.Plan(idx, Behaviour{})
+		good := farmClient(farm, p, T, nil, nil)
+		e, err := good.GetEvent(800000082, idx)
+		if err != nil && strings.Contains(err.Error(), "address already in use") && attempt == 0 {
+			time.Sleep(T)
+			continue // (another process may have taken the port: once more on a new port)
+		}
+		if err != nil || e == nil || e.Index != idx {
+			s.Fail(map[string]any{"op": "failed-discovery", "fault": "failed-discovery", "path": "broadcast"},
+				fmt.Sprintf("after a discovery that could not be sent, the next call on the same fixed bind port failed: %v", err))
 		}
 		return
 	}
